@@ -275,3 +275,108 @@ func TestVerifC05KFShowListing(t *testing.T) {
 	}
 	stats.Sample(map[string]string{"layout": "rf=1, 6 hourly groups, node 1 refuses"})
 }
+
+// Directed campaign for known finding remote-stream-cut-at-frame-boundary: the response stream of a
+// remote iterator is cut exactly between two frames (the TLV response header passed, k point frames passed).
+func TestVerifC05KFStreamCutAtFrameBoundary(t *testing.T) {
+	stats := verifkit.For("C05", "TestVerifC05KFStreamCutAtFrameBoundary", "directed: RF=1, raw SELECT over a remote shard whose response stream is cut at every byte offset up to 600; offsets that fall exactly on a frame boundary are the known shape")
+	defer stats.Flush()
+	cl, err := vkSharedCluster()
+	if err != nil {
+		t.Fatalf("cluster: %v", err)
+	}
+	db := fmt.Sprintf("c05kfb_%d", os.Getpid())
+	if err := cl.createDB(db, 1, time.Hour); err != nil {
+		t.Fatal(err)
+	}
+	defer cl.dropDB(db)
+	var pts []models.Point
+	base := int64(1600000000) - int64(1600000000)%3600
+	for i := 0; i < 12; i++ {
+		pts = append(pts, models.MustNewPoint("m", models.NewTags(map[string]string{"h": "a"}), models.Fields{"v": float64(i)}, time.Unix(base+int64(i), 0)))
+	}
+	if err := cl.write(0, db, pts); err != nil {
+		t.Fatal(err)
+	}
+	cl.syncMeta()
+	// find the owner and query from another node
+	// the group has one shard per node: the owner is the node whose local shard holds the series
+	var owner *vkNode
+	for id, os := range cl.shardOwners(db) {
+		nd := cl.nodeByID(os[0])
+		if nd == nil || nd.srv.TSDBStore.Shard(id) == nil {
+			continue
+		}
+		if n, _ := nd.srv.TSDBStore.Shard(id).SeriesN(), error(nil); n > 0 {
+			owner = nd
+		}
+	}
+	if owner == nil {
+		t.Fatal("harness: owner of the data not found")
+	}
+	coord := 0
+	for i, nd := range cl.nodes {
+		if nd != owner {
+			coord = i
+			break
+		}
+	}
+	r0 := cl.query(coord, db, "SELECT v FROM m")
+	if msg := vkWantRows(r0, 12); msg != "" {
+		t.Fatalf("fault-free: %s", msg)
+	}
+	owner.proxy.mu.Lock()
+	owner.proxy.avoidBoundary = false
+	owner.proxy.mu.Unlock()
+	defer func() {
+		owner.proxy.mu.Lock()
+		owner.proxy.avoidBoundary = true
+		owner.proxy.mu.Unlock()
+		owner.proxy.setFault(vkFault{Kind: "up"})
+	}()
+	silentOnBoundary, silentElsewhere, boundaries, mapTypeSilent := 0, 0, 0, 0
+	var flagged, silent []int64
+	var example string
+	for n := int64(1); n <= 600; n++ {
+		owner.proxy.takeLog()
+		owner.proxy.setFault(vkFault{Kind: "cut", Bytes: n})
+		r := cl.query(coord, db, "SELECT v FROM m")
+		onBoundary := false
+		for _, e := range owner.proxy.takeLog() {
+			if e.CutOnFrameBoundary {
+				onBoundary = true
+			}
+		}
+		if onBoundary {
+			boundaries++
+			flagged = append(flagged, n)
+		}
+		if r.Err == "" && r.String() != r0.String() {
+			silent = append(silent, n)
+		}
+		if r.Err == "" && r.String() != r0.String() {
+			if onBoundary {
+				silentOnBoundary++
+				if example == "" {
+					example = fmt.Sprintf("cut after %d bytes: %d of 12 rows returned, no error", n, strings.Count(r.String(), "\n  ["))
+				}
+			} else if n <= 10 {
+				// every response is cut after n bytes here, including the 11-byte MapType response of the only
+				// node that knows the field: known finding maptype-rpc-failure-yields-empty-result
+				mapTypeSilent++
+			} else {
+				silentElsewhere++
+				t.Errorf("%s stream cut after %d bytes (not a frame boundary) gave a silently different result:\n%s", verifkit.Sig("silently-incomplete-result"), n, r)
+			}
+		}
+	}
+	stats.Case(true, fmt.Sprintf("boundaries=%d silent=%d", boundaries, silentOnBoundary), "directed")
+	stats.Case(true, fmt.Sprintf("silent-elsewhere=%d", silentElsewhere), "directed")
+	stats.Sample(map[string]interface{}{"cut_offsets": 600, "offsets_on_frame_boundary": boundaries, "silently_truncated_on_boundary": silentOnBoundary, "example": example, "flagged": fmt.Sprint(flagged), "silent": fmt.Sprint(silent)})
+	if silentOnBoundary > 0 {
+		stats.KnownReproduced("remote-stream-cut-at-frame-boundary", example)
+	}
+	if mapTypeSilent > 0 {
+		stats.KnownReproduced("maptype-rpc-failure-yields-empty-result", fmt.Sprintf("%d of 10 cut offsets inside the MapType response of the only node holding the field returned an empty result and no error", mapTypeSilent))
+	}
+}
